@@ -1,15 +1,17 @@
 """C08 - Generated RBAC decides every request as AuthorizationPolicy semantics say.
 
-Proof: lean/IstioModel/C08/{Atoms,Theorems}.lean - compiler correctness of an executable model of the
+Proof: lean/IstioModel/C08/{Atoms,Theorems,Clause2}.lean - compiler correctness of an executable model of the
 AuthorizationPolicy -> Envoy RBAC compiler (Model.lean) against Envoy's documented RBAC semantics
-(Envoy.lean) and the policy semantics of the statement (Spec.lean).
-Tie: T-diff.  Stream `compile`: the REAL validator + selection + builder.BuildHTTP()/BuildTCP() output,
-canonicalised, must equal the Lean compiler's output structurally.  Streams `requests` / `tcp`: a Go
-reference RBAC interpreter (Go regexp = RE2) evaluates the REAL generated proto on requests built from the
-policy constants and near misses; its decision and the Go transcription of the statement must equal the
-Lean evalFilters(compile) and specDecision.
-On break: harness `oracle` = the statement itself on the real generated filters (HTTP: decisions equal;
-TCP / untranslatable: never more permissive), independent of the Lean model.
+(Envoy.lean) and the policy semantics of the statement (Spec.lean), clause 2 included (compile_all_exact).
+Tie: T-diff.  Stream `compile`: the REAL validator + config store + GetAuthorizationPolicies + ONE authz plugin
+builder pair per case (BuildTCP / BuildHTTP(class) / BuildTCPRulesAsHTTPFilter, NewBuilder / NewBuilderForService /
+NewWaypointTerminationBuilder) output, canonicalised, must equal the Lean compiler's output structurally.  Streams
+`requests` / `tcp`: a Go reference RBAC interpreter (Go regexp = RE2) evaluates the REAL generated proto on
+requests built from the policy constants and near misses; its decision and the Go transcription of the
+statement must equal the Lean evalGs(compileAll) and specDecisionOn.
+On break: harness `oracle` = the statement itself on the real generated filters: the two decisions must be
+EQUAL on every chain (HTTP, TCP, TCP rules as HTTP filter) - no waiver; a disagreement is classified by the
+single policy value(s) whose known loose reading explains every request of the case, anything else is `other`.
 """
 import json
 import os
@@ -141,9 +143,10 @@ def nontrivial(cur, curo):
 
 
 def run(ctx):
-    ctx.rule = ("cases = 1-5 AuthorizationPolicies (ALLOW/DENY/AUDIT, dry-run, root/workload/other namespace, selector) with 0-3 rules "
-                "of from/to/when over constant pools, values in exact/prefix*/*suffix/*/odd forms, values and notValues; stream compile "
-                "adds values the real validator rejects and trust-domain aliases, builds HTTP and TCP; streams requests/tcp: validator-"
+    ctx.rule = ("cases = 1-5 AuthorizationPolicies (ALLOW/DENY/AUDIT/CUSTOM, dry-run, root/workload/other namespace, selector or targetRefs) "
+                "for a sidecar / gateway / Gateway API gateway / waypoint (per-service chain or termination layer), with 0-3 rules "
+                "of from/to/when over constant pools, values in exact/prefix*/*suffix/*/odd forms, values and notValues, IPv4+IPv6 blocks; stream compile "
+                "adds values the real validator rejects and trust-domain aliases, builds TCP/HTTP(class)/tcphttp on one builder; streams requests/tcp: validator-"
                 "accepted policies + 10-20 requests from the policy constants and near misses (one char off, case flip, prefix/suffix "
                 "boundary, other namespace/sa/trust domain, CIDR edges, empty); distinct = hash of (ops, implementation outputs); "
                 "non-trivial = at least one rule")
@@ -152,10 +155,12 @@ def run(ctx):
         "StringMatcher/HeaderMatcher/CidrRange/MetadataMatcher semantics, safe_regex = RE2 full match); no Envoy binary in the sandbox",
         "peer certificates carry Istio SPIFFE identities spiffe://<td>/ns/<ns>/sa/<sa> (non-empty td, no '/' inside the names); request "
         "strings contain no newline; header names are lower-cased and repeated headers joined by Envoy before matching",
-        "IPv4 only (the model's address parser does not read IPv6 literals); path = :path without query/fragment",
+        "path = :path without query/fragment; IPv4 and IPv6 ipBlocks (netip grammar incl. zones, 4-in-6), an address is only "
+        "ever inside a block of its own family",
         "JWT claims are what envoy.filters.http.jwt_authn wrote to dynamic metadata (request attributes are inputs)",
-        "trust-domain bundle without '*' / '/' entries and principal values whose trust-domain part is '*' or wildcard-free (hypothesis "
-        "`mig`, proved by migration_sem); other alias shapes are tied by the structural differential only",
+        "trust-domain bundle without '*' / '/' entries (mesh config validation admits DNS-label trust domains only); principal values "
+        "with '*', wildcard-free and '*suffix' trust-domain parts are inside migration_sem, a 'prefix*' part is finding 5, "
+        "`when source.principal` values with a '*suffix' part and two or more `from` entries are tied by the differential only",
         "CUSTOM: the external authorizer is taken to allow; only gRPC extension providers are modelled",
     ]
     ctx.trusted.append("lean/IstioModel/C08/Envoy.lean: Envoy RBAC semantics written from documentation (not executed against Envoy)")
@@ -225,10 +230,11 @@ MANIFEST = {
     "level_note": ("Trusted: Lean kernel + {propext, Classical.choice, Quot.sound}; Envoy semantics written from docs (no Envoy in sandbox); "
                    "the hand-written model (tied by differential testing on ~6500 policy sets / ~57000 requests quick); Go reference "
                    "interpreter and Go spec. Main theorems hold under decidable hypotheses evaluated on every generated case (hypsOnB: "
-                   "values inside the proved matcher scope, plain trust-domain bundle/values, Istio-form peer identity, distinct generated "
-                   "names) - about 85-90% of the generated (policy, request) pairs. IPv4 only; external authorizer of CUSTOM assumed to allow; "
-                   "path templates via a shared matcher. Known findings: namespace `*a`/`*sa` regex over-match, requestPrincipals prefix "
-                   "split, header `*` matches an empty value; hardening fix: dry-run CUSTOM policy enforced as DENY."),
+                   "values inside the proved matcher scope, plain trust-domain bundle, no `prefix*` trust-domain part, Istio-form peer identity, "
+                   "distinct generated names) - about 70% of the generated HTTP and 80% of the TCP (policy, request) pairs (most of the rest: requests with an empty host / header value or a non-Istio peer name). External authorizer of CUSTOM assumed "
+                   "to allow; path templates via a shared matcher. Known findings: unanchored namespace regex, requestPrincipals prefix "
+                   "split, header `*` matches an empty value, `prefix*` trust-domain part rewritten to the mesh trust domains; fixes: "
+                   "`when source.trustDomain` values with '/' rejected by validation; hardening: dry-run CUSTOM policy enforced as DENY."),
     "technique": "Lean 4 compiler-correctness theorems over an exact model of the RBAC generators + structural and request-level differential with the real Go builder",
     "design_ref": "DESIGN.md section 5 C08",
 }
